@@ -32,6 +32,8 @@ pub mod support;
 mod hw;
 #[path = "c15_value.rs"]
 mod value;
+#[path = "c15_probe.rs"]
+pub mod probe;
 
 use crate::driver::Driver;
 use crate::report::{trunc, Oracle, Report, Stream};
